@@ -383,6 +383,34 @@ pub fn es_q() -> Family {
     Family::list(out)
 }
 
+/// ES-R: long mixed inputs for which one Base256 field to the end of the symbol fills a real
+/// capacity exactly or nearly (n = c - 2 - d, d = 0..2): a filler of one-codeword ASCII characters
+/// that no dense mode compresses (a ! A ~) with h = 2..4 isolated bytes >= 0x80 (first, middle,
+/// last position ...), so that the all-ASCII rival costs n + h and several plans tie around c.
+pub fn es_r() -> Family {
+    let mut out = Vec::new();
+    for c in capacities() {
+        if c < 30 {
+            continue;
+        }
+        for d in 0..=2usize {
+            let n = c - 2 - d;
+            for h in 2..=4usize {
+                for last_high in [true, false] {
+                    let mut v: Vec<u8> = b"a!A~".iter().cycle().take(n).cloned().collect();
+                    for q in 0..h {
+                        // spread over the input; the last one at the very end or three before it
+                        let pos = if q + 1 == h { if last_high { n - 1 } else { n - 4 } } else { q * (n - 1) / (h - 1).max(1) };
+                        v[pos] = 0x80 | (q as u8 * 0x21 + 5);
+                    }
+                    out.push(v);
+                }
+            }
+        }
+    }
+    Family::list(out)
+}
+
 /// ES-J2: a long Base256 / C40 run at a length-field boundary, an EDIFACT-favouring middle part
 /// of every length 0..=40 and a short suffix of another class.
 pub fn es_j2() -> Family {
